@@ -164,13 +164,32 @@ def run(ctx):
     try:
         f = ctx.fn(rule, name="eval", self_adt="idpf::Idpf")
         g = ctx.guards(f)
-        errs = [e for e in g.refusal_edges(("err",)) if e.cond[0] == "rel"]
+        # every relational refusal of eval - in its own body or in a helper it calls with `?` - is one of the three
+        # admissible ones; an additional refusal rejects honest evaluations
+        from expr import subst
+        from guards import fmt_cond, SWAP
+        bits = Bin("Add", Len(Field(Arg(3), "inner_correction_words")), Lit(1), commutative=True)
+        allowed = [("Gt", Arg(2), Lit(1)), ("Eq", Len(Arg(5)), Lit(0)), ("Gt", Len(Arg(5)), bits)]
+        conds = [e.cond for e in g.refusal_edges(("err",)) if e.cond[0] == "rel"]
+        for (cf, mapping, call_edge) in ctx._try_callees(f):
+            g2 = ctx.guards(cf)
+            for e in g2.refusal_edges(("err",)):
+                if e.cond[0] == "rel":
+                    conds.append(("rel", e.cond[1], subst(e.cond[2], mapping), subst(e.cond[3], mapping)))
+        extra = []
+        for c in conds:
+            hit = False
+            for (op, l, r) in allowed:
+                if (c[1] == op and l(c[2]) and r(c[3])) or (SWAP[c[1]] == op and l(c[3]) and r(c[2])):
+                    hit = True
+            if not hit:
+                extra.append(fmt_cond(c)[:100])
         key = "%s:%s:no-other-refusal" % (rule, f.id)
-        if len(errs) == 3:
+        if not extra and len(conds) >= 3:
             ctx.ok(rule, key, "Idpf::eval refuses only: agg_id > 1, empty prefix, len(prefix) > bits", loc=f.loc)
         else:
-            ctx.bad(rule, key, "Idpf::eval has %d relational refusals, expected exactly 3 (an extra refusal rejects honest evaluations): %s" % (
-                len(errs), [__import__("guards").fmt_cond(e.cond)[:80] for e in errs]), loc=f.loc)
+            ctx.bad(rule, key, "Idpf::eval has refusals beyond agg_id > 1 / empty prefix / len(prefix) > bits (an extra refusal rejects honest "
+                               "evaluations): %s" % (extra or [fmt_cond(c)[:80] for c in conds]), loc=f.loc)
     except Skip:
         pass
     ctx.floor(rule, 4)
